@@ -69,8 +69,13 @@ GlobalSteps ==
   \cup {[op |-> "banadd", addr |-> a, class |-> k] : a \in {x \in Addrs : BanOf(x) = "none"}, k \in {"soon", "past", "perm"}}
   \cup (IF \E a \in DOMAIN bans : bans[a] = "soon" THEN {[op |-> "wait"]} ELSE {})
   \cup (IF \E c \in Conns : conn[c].ph \in {"in", "open"} THEN {[op |-> "restart"]} ELSE {})
+  \cup (IF Live # {} THEN {[op |-> "churn", n |-> IDMod - 1]} ELSE {})
+  \cup (IF AnyFree THEN {[op |-> "rawfail", c |-> LowestFree, addr |-> a, hs |-> h, matches |-> FALSE, sentFirst |-> TRUE,
+                            login |-> "adm", pw |-> <<9>>, trailing |-> t]
+                             : a \in {x \in Addrs : ~Refused(x)}, h \in {"ok", "badproto", "badsub", "short"}, t \in {0, 2}} ELSE {})
 
-AllSteps == {s \in GlobalSteps \cup UNION {StepsOf(c) : c \in Conns} : s.op \in Ops}
+EnabledSteps == {s \in GlobalSteps \cup UNION {StepsOf(c) : c \in Conns} : s.op \in Ops}
+AllSteps == IF EnabledSteps = {} THEN {[op |-> "idle"]} ELSE EnabledSteps   \* keeps random walks going to GenDepth
 
 (* the roster a client maintains *)
 RECURSIVE Fold(_, _)
@@ -88,7 +93,8 @@ Range(sq) == {sq[i] : i \in DOMAIN sq}
 
 Step(s) ==
   /\ Apply(s)
-  /\ ctr' = IF s.op = "login" /\ conn'[s.c].ph = "in" THEN NextCtr ELSE ctr
+  /\ ctr' = IF s.op = "login" /\ conn'[s.c].ph = "in" THEN NextCtr
+            ELSE IF s.op = "churn" THEN ctr + s.n ELSE ctr
   /\ view' = LET v1 == Fold(view, out')
              IN IF s.op = "userlist" THEN [v1 EXCEPT ![s.c] = [on |-> TRUE, s |-> Range(out'[1].users)]] ELSE v1
   /\ hist' = Append(hist, s)
